@@ -911,6 +911,55 @@ class Oracles:
         else:
             self.probe("twins_on_eligible")
 
+    def c07_episode_frequency(self, op):
+        """Unscripted sanity run: N fresh episodes, each starting with the
+        same stochastic action whose preconditions hold at reset, with the
+        real global generator (seeded once from the run seed).  Successive
+        episodes must see independent draws: the success frequency must be
+        compatible with the action's probability (6 sigma)."""
+        sim, env, cfg = self.sim, self.sim.env, self.cfg
+        st0 = model.initial_status(cfg)
+        cands = []
+        for k in sim.table.keys:
+            if k[0] != "exploit":
+                continue
+            a = sim._act_of_key(k)
+            if 0.05 < a.prob < 0.95 and model.host_pre(cfg, st0, a) and \
+                    model.net_pre(cfg, st0, a):
+                cands.append(k)
+        if not cands:
+            return
+        k = cands[int(op.get("pick", 0)) % len(cands)]
+        a = sim._act_of_key(k)
+        x = sim.table.by_key[k]
+        N = int(op.get("n", 500))
+        st_np = np.random.get_state()
+        np.random.seed(core.h64(f"{sim.seed}|epfreq") % (2 ** 32))
+        sim.rnd.passthrough = True
+        succ = 0
+        try:
+            if op.get("seed_first"):
+                env.reset(seed=int(op["seed_first"]))
+            for _ in range(N):
+                env.reset()
+                out = env.step(x)
+                succ += bool(out[4].get("success"))
+        except Exception as e:
+            from .envsim import SutError
+            raise SutError("step", e)
+        finally:
+            sim.rnd.passthrough = False
+            np.random.set_state(st_np)
+        self.probe("episode_frequency")
+        p = a.prob
+        sigma = (p * (1 - p) / N) ** 0.5
+        if abs(succ / N - p) > 6 * sigma + 1e-9:
+            self.fail("C07.frequency", "over fresh episodes (real generator) "
+                      "the success frequency of a stochastic action is "
+                      f"incompatible with its probability (6 sigma, N={N})",
+                      observed=succ / N, prob=p, action=a._asdict(),
+                      reset_seed_first=op.get("seed_first"))
+
     def _c07_frequency(self, rec):
         """The step consumed no scripted uniform although the action is
         stochastic: the seam was bypassed.  Frequency test with the real
